@@ -6,7 +6,7 @@ idx_path = os.path.join(ROOT, "coq", "Props", "index.json")
 idx = json.load(open(idx_path)) if os.path.exists(idx_path) else {}
 
 TB = ("Trusted: Coq 8.16.1 kernel and vm_compute (no native_compute); no axioms declared (Print Assumptions of every property theorem is "
-      "checked on each run); rs2v (syn-based translator: tables, constants and 49 functions of the source regenerated into Coq on each run; cross-checked by tools/gen_tables.py; u8 arithmetic checked, machine-word overflow of usize counters not modelled); extraction with ExtrOcamlBasic only and ocaml/driver.ml "
+      "checked on each run); rs2v (syn-based translator: tables, constants and 50 functions of the source regenerated into Coq on each run; cross-checked by tools/gen_tables.py; u8 arithmetic checked, machine-word overflow of usize counters not modelled); extraction with ExtrOcamlBasic only and ocaml/driver.ml "
       "(parsing/printing glue); the Rust harness; Spec.v as a transcription of UAX #9 rev. 50; rustc/core behaviour "
       "(char_indices, len_utf8/16, decode_utf16, binary_search_by, stable sort) as modelled in ModelText.v.")
 
@@ -17,7 +17,7 @@ P = {
  "C03": ("5/C03", "Rocq/Coq proof: reordered_levels(_per_char) model = Spec.l1 inside the line, unchanged outside, every encoding (C03_final); differential correspondence on reordered_levels(_per_char); the L1 loop reorder_levels is additionally translated from the current source by rs2v and proved equal to the model function (tie_reorder_levels)"),
  "C04": ("5/C04", "Rocq/Coq proof: reorder_visual model = Spec.l2, permutation, identity without odd levels, for all level vectors; differential correspondence on level vectors; reorder_visual and its nested next_range (while let / loop on explicit fuel) translated from the current source by rs2v and proved equal to the model function for every level vector and every sufficient fuel (tie_reorder_visual)"),
  "C05": ("5/C05", "Rocq/Coq proof: visual_runs model partitions the line into maximal level runs in L2 order, deprecated variant equal, for all level vectors and lines; differential correspondence on visual_runs + deprecated; visual_runs_for_line (level-run scan and the three nested while loops of L2) translated from the current source by rs2v and proved equal to the model function for every input and every sufficient fuel (tie_visual_runs_for_line)"),
- "C06": ("5/C06", "Rocq/Coq proof: reorder_line model = the line's characters permuted by L2 of the L1 levels, every encoding incl. ill-formed UTF-16 (C06_final, LL_reorder_line2); differential correspondence; the run computation visual_runs_for_line is tied by translation + proof (tie_visual_runs_for_line)"),
+ "C06": ("5/C06", "Rocq/Coq proof: reorder_line model = the line's characters permuted by L2 of the L1 levels, every encoding incl. ill-formed UTF-16 (C06_final, LL_reorder_line2); differential correspondence; the run computation visual_runs_for_line and the str version of reorder_line itself are tied by translation + proof (tie_visual_runs_for_line, tie_reorder_line)"),
  "C07": ("5/C07", "Rocq/Coq proof over a panic-as-value model: every API function returns Ok on every valid case (C07_final); judge = no API call of the real crate panicked, all generator families"),
  "C08": ("5/C08", "Rocq/Coq proof: vectors are per-code-unit expansions of the character-level analysis (length independence), levels within [paragraph level,126] (C08_final); judge on stored and line levels"),
  "C09": ("5/C09", "Rocq/Coq proof: one generic model for both encodings, length independence of every stage and line query, C18 ([u16] access = lossy decoding); paired judge C09_judge on every UTF-16 case and its UTF-8 twin; the UTF-16 char_at is tied by translation (tie_char_at16)"),
@@ -72,7 +72,7 @@ m = {
            "source_commits": [], "add_only": True},
  "engines": [{"name": "coq-model+correspondence", "path": "/verif/coq, /verif/rs2v, /verif/ocaml, /verif/harness, /verif/tools/check.py",
               "serves_properties": sorted(P.keys()),
-              "kind_free_text": "Coq 8.16.1 development (model of the code, UAX#9 spec, judges, theorems) + source translator rs2v (data and 49 functions, with tie theorems) + differential correspondence between the real crate and the extracted model"}],
+              "kind_free_text": "Coq 8.16.1 development (model of the code, UAX#9 spec, judges, theorems) + source translator rs2v (data and 50 functions, with tie theorems) + differential correspondence between the real crate and the extracted model"}],
  "checks": checks,
  "not_applicable": [],
  "notes": "All eleven defects found on the pinned tree (D1-D11) were repaired by fix: commits in /repo (known_findings.txt). The public API suffices for every observation; no hook is needed (hooks.source_commits is empty).",
